@@ -1258,6 +1258,8 @@ class Model:
             n.cols = {c: nm for c, nm in n.cols.items() if c in vis or c.startswith("#")}
             n.group = []
             return n
+        if any(c not in st.visible for c in st.group):
+            raise Reject("ValueError", "grouping column is not selected")
         n = st.copy()
         vis = set(n.visible)
         n.cols = {c: nm for c, nm in n.cols.items() if c in vis or c.startswith("#")}
